@@ -100,6 +100,13 @@ func init() {
 		}
 		return "", nil
 	}
+	replayers["base"] = func(rep map[string]interface{}) (string, error) {
+		_, err := explore.GetBase(fmt.Sprint(rep["base"]), cfgPL(fmt.Sprint(rep["cfg"])), uint32(numField(rep, "seed")))
+		if bv, ok := err.(*explore.BaseViolation); ok {
+			return bv.Error(), nil
+		}
+		return "", err
+	}
 	replayers["seq12"] = func(rep map[string]interface{}) (string, error) {
 		base, err := baseOf(rep)
 		if err != nil {
